@@ -42,13 +42,26 @@ def stripEolRev : Bytes → Bytes
 
 def stripEol (d : Bytes) : Bytes := (stripEolRev d.reverse).reverse
 
-/-- `get_inline_data(pos, target)` on the bytes from `pos` on: (data, bytes consumed) or `none` = PSEOF. -/
-def getInlineData (target : Bytes) (input : Bytes) : Option (Bytes × Nat) :=
+/-- `get_inline_data(pos, target, length)` on the bytes from `pos` on: (data, bytes consumed) or
+    `none` = PSEOF.  With `length = some n` (the size of an unfiltered image computed from its
+    dictionary) and exactly one end-of-line after the first `n` bytes, the data is those `n` bytes;
+    otherwise one trailing end-of-line is stripped. -/
+def getInlineDataLen (target : Bytes) (length : Option Nat) (input : Bytes) : Option (Bytes × Nat) :=
   match scan target 0 input 0 with
   | none => none
   | some (n, atEof) =>
     let raw := input.take n
     let cut := target.length + (if atEof then 0 else 1)
-    some (stripEol (raw.take (raw.length - cut)), n)
+    let body := raw.take (raw.length - cut)
+    match length with
+    | some len =>
+      let tail := body.drop len
+      if tail = [10] ∨ tail = [13, 10] ∨ tail = [13] then some (body.take len, n)
+      else some (stripEol body, n)
+    | none => some (stripEol body, n)
+
+/-- `get_inline_data(pos, target)` without a size hint. -/
+def getInlineData (target : Bytes) (input : Bytes) : Option (Bytes × Nat) :=
+  getInlineDataLen target none input
 
 end PdfVerif.Inline
